@@ -131,6 +131,8 @@ pub fn scenarios(thorough: bool) -> Vec<Scenario> {
         &[Op::Resolve(1, 0, 0), Op::Resolve(1, 0, 1), Op::Travel(1, 0), Op::Travel(1, 1), Op::Travel(1, 2), Op::Reload(1), Op::Sync(0, 1)]));
     v.push(single_scenario("single-chains", vec![arr_docs()[0].clone(), arr_docs()[1].clone(), arr_docs()[2].clone(), arr_docs()[3].clone(), arr_docs()[8].clone()], if thorough { 6 } else { 5 },
         &[Op::Travel(0, 0), Op::Travel(0, 1), Op::Travel(0, 2), Op::Reload(0), Op::Snapshot(0)]));
+    v.push(diamond_scenario("pair-diamond", &[1, 8], if thorough { 4 } else { 3 },
+        &[Op::Travel(0, 0), Op::Travel(0, 1), Op::Travel(0, 2), Op::Travel(0, 3), Op::Travel(0, 4), Op::Reload(0), Op::ObjPut(0, 1)]));
     for sc in v.iter_mut() {
         sc.track = true;
         sc.key_opts.heads = true;
